@@ -40,6 +40,7 @@ import Pandora.Model.C11Table
 import Pandora.Model.C11Own
 import Pandora.Model.C11Modifiers
 import Pandora.Model.C11Ammo
+import Pandora.Model.C11Pool
 import Pandora.Gen.Locks
 
 namespace Pandora.Spec.C11
@@ -636,6 +637,27 @@ def isolateEcho (chains : List (List Modifier)) (tok : Option String) : Option S
     let fields := vs.zipIdx.map fun (v, i) => s!"v{i}:{enc v}"
     let body := enc "{\"k\":\"k123\",\"g\":\"gg\"}"
     s!"raw:{enc raw},{",".intercalate fields},body:{body}/raw:{enc raw},title:{enc ("T-" ++ raw)},body:"
+
+/-! ### the regenerated loop body of `instance.Run` as an observation (`Gen.InstLoop.iterBody`, round 6) -/
+
+def actName : Pandora.Model.C03Loop.Act → String
+  | .acq => "Acquire" | .empty => "Acquire(none)" | .tokOk => "Wait" | .tokEnd => "Wait(finished)"
+  | .reqAdd => "Request.Add" | .shoot => "Shoot" | .respAdd => "Response.Add" | .discard => "Report(discarded)"
+  | .rel => "Release" | .bad why => s!"?({why})"
+
+/-- the first answer of the environment under which one iteration of the loop body breaks the ownership discipline of the
+ammo (`Model/C11Pool.actsOkFrom`: Acquire, then Shoot / Release only while the ammo is held, nothing held at the end) -/
+def loopBad (body : List Pandora.Model.C03Loop.Instr) : Option (Bool × Bool × Bool) :=
+  let bs := [true, false]
+  let cases := bs.flatMap fun a => bs.flatMap fun w => bs.map fun f => (a, w, f)
+  cases.find? (fun (a, w, f) => !Pandora.Model.C11Pool.actsOkFrom false (Pandora.Model.C11Pool.iterActs body a w f))
+
+def judgeLoop (body : List Pandora.Model.C03Loop.Instr) : String :=
+  match loopBad body with
+  | none => "ok"
+  | some (a, w, f) =>
+    let acts := Pandora.Model.C11Pool.iterActs body a w f
+    s!"fail:loop-discipline:one iteration of instance.Run (Acquire ok={a}, Wait ok={w}, fire={f}) does [{" ".intercalate (acts.map actName)}]: the ammo is shot or released while the instance does not hold it, or is still held at the end"
 
 /-! ### several pools in one process (mode=pools, round 6) -/
 
